@@ -34,7 +34,8 @@ type tnode struct {
 	seed     int64
 	mtime    int64
 	overlays []overlay
-	target   string // for 'l': "/x/y" below the root
+	target   string      // for 'l': "/x/y" below the root
+	mode     os.FileMode // for 'd': extra mode bits (setgid, sticky) put on the directory after it was filled
 }
 
 type tree struct {
@@ -174,6 +175,13 @@ func (t *tree) materialize(root string) error {
 				continue
 			}
 			if err := os.Symlink("does-not-exist-anywhere", p); err != nil {
+				return err
+			}
+		}
+	}
+	for _, n := range t.nodes {
+		if n.kind == 'd' && n.mode != 0 {
+			if err := os.Chmod(filepath.Join(root, n.path), 0o755|n.mode); err != nil {
 				return err
 			}
 		}
